@@ -10,6 +10,7 @@ sys.path.insert(0, os.path.dirname(os.path.abspath(__file__)))
 from common import Check, BASE_TRUST, coq_str, coq_json, OutOfModel, VERIF  # noqa: E402
 import sim  # noqa: E402
 import campaign as cp  # noqa: E402
+import engine_cases as ec  # noqa: E402
 
 
 def main():
@@ -25,9 +26,10 @@ def main():
     tmpd = tempfile.mkdtemp(prefix="lsf_c01_")
     corpus = json.load(open(os.path.join(VERIF, "corpus", "C01.json")))
     cases, descs = [], []
+    order_dependent = []
 
     def one(definition, data, seed, forced=None, tag="random"):
-        worker = cp.Worker(seed)
+        worker = cp.Worker(seed, stable=ec.has_fanout(definition))      # (in a fan-out "the k-th call of f with this payload" depends on the order of the branches)
         if forced:
             for k, v in forced.items():
                 worker.forced[(k, None)] = [tuple(x) for x in v]
@@ -39,6 +41,13 @@ def main():
         if r.status != "quiescent" or r.final is None or len(r.terminal) != 1:
             d["leftovers"] = r.leftovers
             return d, None
+        probe = type("Probe", (), {})()
+        probe.trace, probe.world, probe.worker = r.world.trace, r.world, worker
+        if ec.order_dependent_tasks(probe):
+            # one (function, payload) requested from two places with outcomes that differ per attempt: which place gets which outcome depends on the
+            # order of the calls (the engine runs branches breadth first, the semantics one after the other): not comparable
+            order_dependent.append(d)
+            return d, "skip"
         ctx = cp.context_for(definition, data, name)
         try:
             obs = "(inl %s)" % coq_json(r.final[1]) if r.final[0] == "SUCCEEDED" else "(inr %s)" % coq_str(r.final[1] or "")
@@ -50,6 +59,8 @@ def main():
     stuck = []
     for item in corpus["directed"]:
         d, case = one(item["definition"], item["input"], 1, item.get("forced"), tag=item["tag"])
+        if case == "skip":
+            continue
         if case is None:
             stuck.append(d)
         else:
@@ -62,6 +73,8 @@ def main():
         if rng.random() < 0.2:
             data["a"] = rng.choice([2, 0, "one"])
         d, case = one(definition, data, rng.randrange(10 ** 6))
+        if case == "skip":
+            continue
         if case is None:
             stuck.append(d)
         else:
@@ -97,13 +110,13 @@ def main():
         for t in json.dumps(d["definition"]).split('"Type": "')[1:]:
             types[t.split('"')[0]] = types.get(t.split('"')[0], 0) + 1
     ck.add_group("executions", len(cases), min(succ, len(descs) - succ) * 2, descs[len(corpus["directed"]):len(corpus["directed"]) + 2],
-                 succeeded=succ, failed=len(descs) - succ, specified_by_semantics=specified, state_types=types, not_ended=len(stuck))
+                 succeeded=succ, failed=len(descs) - succ, specified_by_semantics=specified, state_types=types, not_ended=len(stuck), not_compared_because_task_outcomes_depend_on_the_order_of_calls=len(order_dependent))
     ck.cov["rule"] = ("random machines over all eight state types (chains with forward Choice jumps, Parallel/Map nested to depth 2 quick / 3 thorough, "
                       "Retry/Catch, InputPath/Parameters/ResultSelector/ResultPath/OutputPath from pools) x task outcomes drawn per (function, payload, attempt) "
                       "with 25% errors, run on the canonical FIFO schedule; plus the directed corpus; non-trivial = SUCCEEDED and FAILED both counted (min*2)")
     ck.assumptions = ["the data plane of the semantics (paths, templates, choice rules) is the model validated by C12-C14; C01 fixes the order of application and the control flow",
                       "Cause texts are not compared (replaced by a placeholder on both sides)",
-                      "task behaviour is held fixed as a function of (function, payload, attempt number)"]
+                      "task behaviour is held fixed as a function of (function, payload, attempt number); a run in which one (function, payload) is requested from two places with differing outcomes per attempt is not compared"]
     ck.finish(BASE_TRUST + ["harness/sim.py (simulated fabric)", "Spec/AslSem.v is the specification"])
 
 
